@@ -105,16 +105,22 @@ above — not a weak order — the result depends on exactly this probe sequence
 variable {α : Type}
 
 /-- The `do … while (l < r)` binary search of `binarysort`: where `pivot` goes in
-the sorted prefix `xs`. -/
+the sorted prefix `xs`.  The loop runs at most `r - l` times (the interval at
+least halves), which is the fuel `bisect` supplies; recursion on the fuel keeps
+the function structurally recursive (kernel-reducible). -/
+def bisectGo (lt : α → α → Bool) (pivot : α) (xs : List α) : Nat → Nat → Nat → Nat
+  | 0, l, _ => l
+  | fuel + 1, l, r =>
+    if l < r then
+      let p := l + (r - l) / 2
+      match xs[p]? with
+      | none => l                  -- unreachable (p < r ≤ xs.length)
+      | some x =>
+        if lt pivot x then bisectGo lt pivot xs fuel l p else bisectGo lt pivot xs fuel (p + 1) r
+    else l
+
 def bisect (lt : α → α → Bool) (pivot : α) (xs : List α) (l r : Nat) : Nat :=
-  if _h : l < r then
-    let p := l + (r - l) / 2
-    match xs[p]? with
-    | none => l                    -- unreachable (p < r ≤ xs.length)
-    | some x => if lt pivot x then bisect lt pivot xs l p else bisect lt pivot xs (p + 1) r
-  else l
-termination_by r - l
-decreasing_by all_goals omega
+  bisectGo lt pivot xs (r - l) l r
 
 def binInsert (lt : α → α → Bool) (xs : List α) (pivot : α) : List α :=
   let i := bisect lt pivot xs 0 xs.length
@@ -173,6 +179,7 @@ inductive FOut (α : Type) where
   | adapter (a : α)
   | none
   | raise (e : Exc)
+  deriving DecidableEq
 
 /-- A factory table: call ordinal within this `adapt` call, offer, adaptee. -/
 abbrev Factory (α : Type) := Nat → Offer → α → FOut α
@@ -191,6 +198,7 @@ inductive WalkRes (α : Type) where
   | done (a : α)
   | failed
   | raised (e : Exc)
+  deriving DecidableEq
 
 /-- "Walk path and create adapters" (:279-291).  The trace is the list of factory
 calls made so far in this `adapt` call; its length is the next call ordinal. -/
@@ -214,6 +222,7 @@ inductive Res (α : Type) where
   | raised (e : Exc)
   | notFound
   | outOfFuel
+  deriving DecidableEq
 
 /-- The `for mro_distance, offer in edges:` loop for the popped entry `w`
 (:274-303).  `some r` = the function returned / raised. -/
@@ -271,6 +280,7 @@ inductive Out (α : Type) where
   | adapted (path : List Offer) (a : α)    -- the adapter built along `path`
   | default                                -- the `default` argument
   | error (e : Exc)
+  deriving DecidableEq
 
 /-- `if result is None:` (:135-141). -/
 def noneResult (hasDefault : Bool) : Out α :=
@@ -306,6 +316,7 @@ inductive VOut (α : Type) where
   | adapted (path : List Offer) (a : α)
   | default                                -- `default_value_for(trait, obj, name)`
   | error (e : Exc)
+  deriving DecidableEq
 
 /-- `mode` = `AdaptMap[adapt]` (0 'no', 1 'yes', 2 'default'); `isInst` =
 `isinstance(value, klass)`; `ad` = the outcome of `adapt(value, klass, None)`. -/
